@@ -43,9 +43,11 @@ SEGS = ["a", "b", "c", "", ".", "..", "a:b", ":", "@", "a@b", "%2E", "%2e%2E", "
         "index.html", "%20", "a%20b", "a+b", ".git", ".well-known", "..a", "a..", ".a.", "%2e.", ".%2E"]
 SEGS_I = SEGS + ["é", "日本", "a:é", "é:b", "a中:b", "日:本", "\U0001F600:x"] + ALIAS + ["na\u00efve", "\u00bfq", "1\u00a3"]
 QUERIES = [None, None, "", "q", "a=b&c=d", "/?", "?", "q%41", "a/b?c", ":@", "%FF", "@", "u@h:8", "t=1:2",
-           "//x@y/z"]
+           "//x@y/z", "a=1&b=2;c=3", "utm_source=x&id=1", "q=a+b", "q=a%2Bb", ":~:text=x", "&&", "=="]
 QUERIES_I = QUERIES + ["é", "\ue000", "\U000f0000"] + ALIAS[:5]
-FRAGS = [None, None, "", "f", "/?", "a/b", "f%41", ":@", "%C3%A9", "@", "u@h:8", "L1:2", "//x@y"]
+FRAGS = [None, None, "", "f", "/?", "a/b", "f%41", ":@", "%C3%A9", "@", "u@h:8", "L1:2", "//x@y",
+         # markers applications give a meaning to (text directives, hash-bang, key=value)
+         "top:~:text=first%20words", ":~:", ":~:text=a,b", "!/path", "!", "a=1&b=2", "xpointer(/a/b)", "~:~", "%3A~:"]
 FRAGS_I = FRAGS + ["é"] + ALIAS[:5]
 
 
@@ -433,7 +435,7 @@ def small_refs():
 
 
 SETTER_VALUES = {
-    "ss": [None, "s", "b1"],
+    "ss": [None, "s", "b1", "file", "FILE", "https", "urn", "mailto"],
     "sa": [None, "", "h", "u@h:1", "[::1]"],
     "sp": ["", "/", "a", "/a", "//a", "a:b", ":", "./a:b", "a/b", "//", "/.//a", "1:a", "@:b",
            "a/../b", "..", "."],
@@ -763,6 +765,10 @@ def stream_cmp(rng, tier):
                     yield "cmp %s full %s %s" % (f, hx(wrap[kind] % a), hx(wrap[kind] % b))
                     yield "cmp %s ref %s %s" % (f, hx((wrap[kind] % a)[2:]), hx((wrap[kind] % b)[2:]))
                 yield "cross u %s %s" % (hx(wrap[kind] % a), hx(wrap[kind] % b))
+    for a, b in policy_pairs():
+        for f in "ui":
+            yield "cmp %s full %s %s" % (f, hx(a), hx(b))
+        yield "cross u %s %s" % (hx(a), hx(b))
     paths = ["", "/", "a", "/a", "a/", "a/.", "a/./", "a/b/..", "a/b/../", "..", "../a", "a/../..",
              "/..", "/a/..", "//", "/./", "./", ".", "a//b", "a/b", "%61", "a/%2E", "a/./b", "/.//a",
              "//a", "a/../b", "b", "%2e", "a/%2E%2E/..", "%2e%2e/..", "/%2E%2E/../b", "/b", "a/%2E/..",
@@ -841,6 +847,21 @@ def stream_cmp(rng, tier):
         if "é" not in a:
             yield "hash u segment %s" % hx(a)
         yield "hash i query %s" % hx(a)
+
+
+# authorities and schemes a well-meant "policy" could treat as the same thing (RFC 8089 `file://localhost`,
+# default ports, `www.`, a trailing dot, letter case): they differ as texts and as keys
+POLICY_SCHEMES = ["file", "FILE", "http", "https", "ws", "ftp", "urn", "mailto", "s"]
+POLICY_AUTHS = [("", "localhost"), ("localhost", "LOCALHOST"), ("localhost", "127.0.0.1"), ("example.com", "www.example.com"),
+                ("h", "h:80"), ("h", "h:443"), ("h:80", "h:443"), ("h", "h."), ("h", "h:"), ("", "h"), ("u@h", "h"), ("h", "h")]
+
+
+def policy_pairs():
+    for sc in POLICY_SCHEMES:
+        for x, y in POLICY_AUTHS:
+            for pa, pb in [("/a/b", "/a"), ("/a/b", "/a/c"), ("/a", "/a"), ("", "")]:
+                yield sc + "://" + x + pa, sc + "://" + y + pb
+                yield sc + "://" + y + pa, sc + "://" + x + pb
 
 
 def long_paths():
@@ -937,6 +958,9 @@ def stream_relto(rng, tier):
         for pa, pb in [("/a/b", "/a/c"), ("/a/b/", "/a/b/c"), ("", "/a"), ("/", ""), ("/a?q", "/a")]:
             for f in "ui":
                 yield "relto %s %s %s" % (f, hx("s://" + x + pa), hx("s://" + y + pb))
+    for a, b in policy_pairs():
+        for f in "ui":
+            yield "relto %s %s %s" % (f, hx(a), hx(b))
     # the same-document shortcut compares texts: a base whose last segment *decodes* to the rest of
     # the target (escaped `/`, escaped letters, escaped dots) is another document
     for d in ["s://h/docs/", "s://h/", "s:/a/", "s:a/"]:
@@ -985,6 +1009,10 @@ def stream_suffix(rng, tier):
                 if v.startswith(("s:", "t:", "http:")):
                     yield "suffix %s full %s %s" % (f, hx(v), hx(v))
                     yield "suffix %s full %s %s" % (f, hx(v), hx(v.split("#")[0].split("?")[0]))
+    for a, b in policy_pairs():
+        for f in "ui":
+            yield "suffix %s full %s %s" % (f, hx(a), hx(b))
+            yield "suffix %s ref %s %s" % (f, hx(a), hx(b))
     # the same path pairs inside whole references, through each of the four entry points: a prefix
     # spelt with dot segments is textually longer than the value it is a prefix of
     aps = [p for p in exhaustive("a/.", 4)]
@@ -1068,6 +1096,12 @@ def stream_convert(rng, tier):
         yield "cmp i ref %s %s" % (hx(b), hx(base))
         yield "hash u ref %s" % hx(b)
         yield "hash i ref %s" % hx(b)
+        # ... and the same edits through the authority handle
+        ab = rng.choice(SCHEMES) + "://" + rand_authority(rng, "u") + rand_path(rng, "u", rng.choice(["abempty", "empty"]))
+        aops = ";".join(am_ops(rng, "u", rng.choice([1, 2, 3])))
+        for kind in ("ref", "full"):
+            yield "hist u %s %s am[%s]" % (kind, hx(ab), aops)
+            yield "hist i %s %s am[%s]" % (kind, hx(ab), aops)
         # two full values that differ in two components at once (an ordering that visits the
         # components in another order in one family shows only there)
         _, _, _, Q, F = fam_lists("u")
@@ -1080,6 +1114,14 @@ def stream_convert(rng, tier):
             yield "cmp i %s %s %s" % (kind, hx(x), hx(y))
     opp = [("a:b?x#2", "a:b?y#1"), ("s://h/p#b", "s://h/p?q#a"), ("s://g/b", "s://h/a"), ("s://h:2/a", "s://h:1/b"),
            ("s://u@h/b", "s://v@h/a"), ("a://z", "b://y"), ("s://h/a?2", "s://h/b?1"), ("s:a#2", "s:b#1"), ("s://g?2", "s://h?1")]
+    # every single edit of the authority handle, empty values included, in both families
+    for ab in ["s://h", "s://h/p", "s://u@h:1/p?q#f", "s://h:", "s://@h", "//h"]:
+        for o1 in ["ui:" + ohx(v) for v in [None, "", "u", "u:p"]] + ["host:" + hx(v) for v in ["", "h", "[::1]"]] + \
+                ["port:" + ohx(v) for v in [None, "", "1", "080"]]:
+            for f in "ui":
+                yield "hist %s ref %s am[%s]" % (f, hx(ab), o1)
+                if ab.startswith("s:"):
+                    yield "hist %s full %s am[%s]" % (f, hx(ab), o1)
     for x, y in opp + [(b, a) for a, b in opp]:
         for kind in ("full", "ref"):
             yield "cmp u %s %s %s" % (kind, hx(x), hx(y))
@@ -1207,6 +1249,16 @@ def stream_pct(rng, tier):
         extra = {"segment": (":", "@"), "userinfo": (":",), "host": (), "query": (":", "@", "/", "?"),
                  "fragment": (":", "@", "/", "?")}[k2]
         yield "pct %s %s %s" % (f, k2, hx(rand_component(rng, f, extra, private=(k2 == "query"))))
+    markers = [":~:", "a:~:text=b%20c", "~:~", "!/x", "a=1&b=2;c=3", "q=a+b", "xn--bcher-kva", "www.a", "..", ".", "a..b",
+               "%2B+", "&amp;", ";jsessionid=1", ";v=1", "@", "a@b", "::", "~", "%7e%7E", "-._~"]
+    for mk in markers:
+        for k3 in kinds:
+            allowed = {"segment": ":@", "userinfo": ":", "host": "", "query": ":@/?", "fragment": ":@/?"}[k3]
+            if any(c in ":@/?" and c not in allowed for c in mk):
+                continue
+            for f in "ui":
+                yield "pct %s %s %s" % (f, k3, hx(mk))
+                yield "pct %s %s %s" % (f, k3, hx("x" + mk + "y"))
     for s in exhaustive("a%4C3é", 4 if tier == "quick" else 5):
         yield "pct i segment %s" % hx(s)
     # components reached from a whole reference (parts, authority parts, segment iteration)
